@@ -10,6 +10,7 @@ from .common import (rules, deriv, attr_calls, cfg_node_of, is_selector_call, st
 from .loops import _atoms, _assign_transfer
 
 GREGORY = ('wigm', 'wigm_prf', 'cfer', 'scotland', 'mpls')
+MUTATORS = ('remove', 'pop', 'append', 'insert', 'extend', 'clear', 'sort', 'reverse')
 
 
 def gregory_rules(ctx):
@@ -623,7 +624,18 @@ def r20_order_free_loops(ctx):
                                     bad.append(('plain store to shared state `%s`' % unparse(tt), sub))
                                 elif isinstance(tt, ast.Subscript):
                                     bad.append(('item store `%s`' % unparse(tt), sub))
+                    # the list being walked is not changed under the walk (removing an element makes the iterator skip the next line)
+                    if isinstance(sub, ast.Call) and isinstance(sub.func, ast.Attribute) and sub.func.attr in MUTATORS \
+                            and ctx.canon(sub.func.value, g) in ('E.ballots', 'E.ballotsEqual'):
+                        bad.append(('the ballot list is modified while it is walked (`%s`)' % unparse(sub), sub))
+                    if isinstance(sub, ast.Delete) and any(ctx.canon(getattr(t_, 'value', t_), g) in ('E.ballots', 'E.ballotsEqual') for t_ in sub.targets):
+                        bad.append(('the ballot list is modified while it is walked (`%s`)' % unparse(sub), sub))
+                    # a per-line count: `n += <constant>` counts ballot LINES, and the number of lines a set of ballots is
+                    # written as is presentation (1000 ballots on one line or on three)
+                    if isinstance(sub, ast.AugAssign) and isinstance(sub.op, (ast.Add, ast.Sub)) and isinstance(sub.value, ast.Constant) \
+                            and isinstance(sub.value.value, (int, float)) and not isinstance(sub.value.value, bool):
+                        bad.append(('`%s` counts ballot lines, not ballots (a line stands for `multiplier` ballots)' % unparse(sub), sub))
                 ctx.check(not bad, R, loop, g, 'a loop over the ballots only accumulates: its result cannot depend on the order of the ballot lines',
                           'no break/return; stores only to fields of the ballot itself, to locals, and additive `+=`/`-=` accumulators',
-                          'ballot loop is order-dependent: %s at line %s' % (bad[0][0], bad[0][1].lineno) if bad else '')
+                          'the result of this ballot loop depends on how the ballots are written (order / grouping of lines): %s at line %s' % (bad[0][0], bad[0][1].lineno) if bad else '')
     ctx.floor(R, 'ballot loops', n, 25)
